@@ -1,3 +1,4 @@
+import PbBss.Proofs.EmEquivariance
 import PbBss.Proofs.PosteriorProof
 /-! # C05 — mixture training is equivariant under relabelling of the classes
 
@@ -117,5 +118,49 @@ example : ∃ (w lp : Fin 2 → ℝ), Posterior.affiliation (1/1000) none w lp n
   · have := PosteriorProof.affiliation_perm (K := 1) (1/1000) none (fun _ => 1)
       (fun k => if k = 0 then 0 else Real.log 2) none (Equiv.swap 0 1) 0
     simpa using this
+
+
+/-! ## Relabelling equivariance on the executable EM model `Em.fit` (`PbBss/Proofs/EmEquivariance.lean`)
+
+The theorems above are about the mixture model of `Posterior.lean`; the same property on the model the monotonicity (C02),
+fixed-point (C03) and pipeline-chain (C16/C17) theorems are about: for EVERY component family, weight rule, tying, saliency
+and number of iterations, with no hypotheses. -/
+section em_model
+open PbBss.Em PbBss.EmProof
+variable {Θ Y : Type} {K N : Nat}
+
+/-- the posterior of the relabelled model is the relabelled posterior -/
+theorem em_eStep_perm (tiny : ℝ) (fam : Family Θ Y ℝ) (θ : Mixture Θ ℝ (K+1) N) (y : Fin N → Y)
+    (σ : Equiv.Perm (Fin (K+1))) (k : Fin (K+1)) (n : Fin N) :
+    eStep tiny fam (θ.perm σ) y k n = eStep tiny fam θ y (σ k) n :=
+  EmProof.eStep_perm tiny fam θ y σ k n
+
+/-- the M-step of the relabelled posteriors is the relabelled M-step (all three weight rules, both tying modes) -/
+theorem em_mStep_perm (fam : Family Θ Y ℝ) (rule : WeightRule) (tie : Tying N) (eps : ℝ) (s : Fin N → ℝ)
+    (y : Fin N → Y) (γ aux : Fin K → Fin N → ℝ) (σ : Equiv.Perm (Fin K)) :
+    mStep fam rule tie eps s y (fun k => γ (σ k)) (fun k => aux (σ k)) = (mStep fam rule tie eps s y γ aux).perm σ :=
+  EmProof.mStep_perm fam rule tie eps s y γ aux σ
+
+/-- **`fit` is equivariant under relabelling of the classes**, every number of iterations -/
+theorem em_fit_perm (tiny : ℝ) (fam : Family Θ Y ℝ) (rule : WeightRule) (tie : Tying N) (eps : ℝ) (s : Fin N → ℝ)
+    (y : Fin N → Y) (n : Nat) (γ₀ : Fin (K+1) → Fin N → ℝ) (σ : Equiv.Perm (Fin (K+1))) :
+    fit tiny fam rule tie eps s y n (fun k => γ₀ (σ k)) = (fit tiny fam rule tie eps s y n γ₀).perm σ :=
+  EmProof.fit_perm tiny fam rule tie eps s y n γ₀ σ
+
+/-- … and so are the posteriors of the fitted model (`fit_predict`) and its log-likelihood -/
+theorem em_fit_predict_perm (tiny : ℝ) (fam : Family Θ Y ℝ) (rule : WeightRule) (tie : Tying N) (eps : ℝ)
+    (s : Fin N → ℝ) (y : Fin N → Y) (n : Nat) (γ₀ : Fin (K+1) → Fin N → ℝ) (σ : Equiv.Perm (Fin (K+1)))
+    (k : Fin (K+1)) (m : Fin N) :
+    eStep tiny fam (fit tiny fam rule tie eps s y n (fun k => γ₀ (σ k))) y k m
+      = eStep tiny fam (fit tiny fam rule tie eps s y n γ₀) y (σ k) m :=
+  EmProof.fit_predict_perm tiny fam rule tie eps s y n γ₀ σ k m
+
+theorem em_fit_logLik_perm (tiny : ℝ) (fam : Family Θ Y ℝ) (rule : WeightRule) (tie : Tying N) (eps : ℝ)
+    (s : Fin N → ℝ) (y : Fin N → Y) (n : Nat) (γ₀ : Fin (K+1) → Fin N → ℝ) (σ : Equiv.Perm (Fin (K+1))) :
+    logLik fam s (fit tiny fam rule tie eps s y n (fun k => γ₀ (σ k))) y
+      = logLik fam s (fit tiny fam rule tie eps s y n γ₀) y :=
+  EmProof.fit_logLik_perm tiny fam rule tie eps s y n γ₀ σ
+
+end em_model
 
 end PbBss.C05
